@@ -486,6 +486,10 @@ protected:
                 m_constants.s_cdataCloseString,
                 m_constants.s_cdataCloseStringLength);
         }
+
+        // A CDATA section is character data, so what follows must not
+        // be indented...
+        m_indentHandler.setPrevText(true);
     }
 
     /**
